@@ -46,6 +46,8 @@ def grid(dialect, quotes, nm=None):
     nm = nm or {k: k for k in ("dbx", "scy", "tbz", "colq", "alq")}
     out = []
     styles = [None] + quotes
+    # control for the UPDATE positions: whether this dialect's UPDATE ... FROM yields column pairs at all is not a naming matter
+    out.append(("update_control", "update ctl_t set c1 = s.c1 from src_t s", {"source": ["<default>.src_t"], "target": ["<default>.ctl_t"], "pairs": [["<default>.src_t.c1", "<default>.ctl_t.c1"]]}, None, None))
     for case, q in itertools.product(CASES, styles):
         for nparts in (1, 2, 3):
             parts = [spell(b, case, q) for b in [nm["dbx"], nm["scy"], nm["tbz"]][3 - nparts:]]
@@ -60,6 +62,15 @@ def grid(dialect, quotes, nm=None):
             out.append(("table_written_then_read", f"insert into {name} select c1 from src_t; insert into fin_t select c1 from {name}",
                         {"source": ["<default>.src_t"], "target": ["<default>.fin_t"], "intermediate": [T], "pairs": [["<default>.src_t.c1", "<default>.fin_t.c1"]]},
                         {"source": ["<default>.src_t"], "target": ["<default>.fin_t"], "intermediate": [Tb], "pairs": [["<default>.src_t.c1", "<default>.fin_t.c1"]]}, "KF-16b"))
+            # UPDATE: the spelled name as target (un-aliased), sources qualified by an alias / by a namesake that differs only in letter case
+            out.append(("update_target", f"update {name} set c1 = s.c1 from src_t s", {"source": ["<default>.src_t"], "target": [T], "pairs": [["<default>.src_t.c1", f"{T}.c1"]]},
+                        {"source": ["<default>.src_t"], "target": [Tb], "pairs": [["<default>.src_t.c1", f"{Tb}.c1"]]}, "KF-16b"))
+            if nparts == 1 and norm_part(parts[-1]) != norm_part(parts[-1]).lower():
+                low = norm_part(parts[-1]).lower()
+                out.append(("update_target_beside_lowercase_namesake", f"update {name} set c1 = {low}.c1 from scx.{low}",
+                            {"source": [f"scx.{low}"], "target": [T], "pairs": [[f"scx.{low}.c1", f"{T}.c1"]]}, None, None))
+                out.append(("update_target_beside_lowercase_alias", f"update {name} set c1 = {low}.c1 from src_t {low}",
+                            {"source": ["<default>.src_t"], "target": [T], "pairs": [["<default>.src_t.c1", f"{T}.c1"]]}, None, None))
             if nparts == 1:
                 out.append(("qualifier", f"insert into tgt_t select {name}.c1 from {name}", {"source": [T], "target": ["<default>.tgt_t"], "pairs": [[f"{T}.c1", "<default>.tgt_t.c1"]]}, None, None))
             if nparts >= 2:
@@ -195,6 +206,10 @@ def run(tier):
                            "KF-16d" if len(parts) == 3 and parts[0][0] in "\"`" and r["str"] == parts[0][1:-1] + parts[0][0] + "." + parts[0][0] + parts[1][1:-1] + "." + norm_part(parts[2]) else None)
     positions = {}
     rejected = {}
+    # dialects whose UPDATE ... FROM yields no column pairs even for a plain lower-case name: the UPDATE positions then compare tables only
+    update_without_pairs = {case["dialect"] for case, m, (s, r) in zip(cases, meta, recs)
+                            if m[0].split(":")[0] == "update_control" and s == "ok" and r["outcome"] == "ok" and not r["column_pairs"]}
+    run_.extra["update_from_without_column_pairs"] = sorted(update_without_pairs)
     for case, (pos, exp, adj, kfid), (s, r) in zip(cases, meta, recs):
         b = {"sql": case["sql"], "dialect": case["dialect"], "position": pos}
         if not run_.pool_status(s, r, b):
@@ -213,6 +228,12 @@ def run(tier):
         run_.observe("spellings_compared")
         positions[pos] = positions.get(pos, 0) + 1
         e = dict(exp)
+        if pos.startswith("update_") and case["dialect"] in update_without_pairs:
+            e["pairs"] = []
+            if adj is not None:
+                adj = dict(adj, pairs=[])
+            if pos.startswith("update_control"):
+                run_.counters["update_control_without_pairs"] += 1
         e["pairs"] = sorted(e["pairs"])
         o = obs(r)
         if o == e:
